@@ -4,6 +4,7 @@ import (
 	"bytes"
 	"encoding/gob"
 	"fmt"
+	"math"
 	"math/big"
 	"math/rand"
 	"time"
@@ -68,7 +69,17 @@ func (s *badgerStore) CheckAndSaveNonce(ID string, nonce int64) error {
 		}
 
 		if s.nonceExpire > 0 {
-			return setExpiringItem(txn, key, &nonce, s.nonceExpire)
+			// The nonce has to be remembered for as long as a replay of it
+			// would still pass the age check above: a nonce from a clock
+			// running ahead stays fresh for that much longer.
+			ttl := s.nonceExpire
+			if ahead := time.Duration(nonce - time.Now().UnixNano()); ahead > 0 {
+				ttl += ahead
+				if ttl < ahead {
+					ttl = math.MaxInt64
+				}
+			}
+			return setExpiringItem(txn, key, &nonce, ttl)
 		}
 		return setItem(txn, key, &nonce)
 	})
